@@ -302,12 +302,31 @@ BNAF_T_REF = (
     "    return self.layers[-1][0](x)\n")
 
 
+BNAF_INIT_REF = (
+    "def __init__(self, key, *, dim, cond_dim=None, depth, block_dim, activation=None, inverter=None):\n"
+    "    key, subkey = jr.split(key)\n"
+    "    self.inverter = AutoregressiveBisectionInverter() if inverter is None else inverter\n"
+    "    if DEPTH_LITERAL == 0:\n"
+    "        layers = [block_autoregressive_linear(key, n_blocks=dim, block_shape=(1, 1))]\n"
+    "    else:\n"
+    "        keys = jr.split(key, DEPTH_LITERAL + 1)\n"
+    "        block_shapes = [(block_dim, 1), *[(block_dim, block_dim)] * (DEPTH_LITERAL - 1), (1, block_dim)]\n"
+    "        layers = [block_autoregressive_linear(k, n_blocks=dim, block_shape=bs) for k, bs in zip(keys, block_shapes)]\n"
+    "    if cond_dim is not None:\n"
+    "        self.cond_linear = eqx.nn.Linear(cond_dim, layers[0][0].out_features, use_bias=False, key=subkey)\n"
+    "    else:\n"
+    "        self.cond_linear = None\n"
+    "    self.depth = depth\n    self.block_dim = block_dim\n    self.shape = (dim,)\n"
+    "    self.cond_shape = None if cond_dim is None else (cond_dim,)\n")
+
+
 def rule_block(prog, rep):
     rep.rule("C09.block", "BlockAutoregressiveNetwork: every layer is a block-masked linear map followed (except the "
                           "last) by the elementwise activation bijection; the condition enters additively before the "
                           "first activation only; block shapes are (block_dim,1), (block_dim,block_dim)..., "
                           "(1,block_dim) with depth+1 layers ((1,1) for depth 0); the activation is a scalar "
-                          "unconditional bijection (default LeakyTanh)", minimum=6)
+                          "unconditional bijection (default LeakyTanh); declared shape (dim,), cond_shape, the bias-free "
+                          "conditioning map into the first layer's output, the default bisection inverter", minimum=30)
     c = prog.cls(BN + "BlockAutoregressiveNetwork")
     got = method_term(prog, c, "transform")
     want = eval_ref_method(prog, c, BNAF_T_REF, [X, COND])
@@ -334,6 +353,26 @@ def rule_block(prog, rep):
         rep.check(ok, "C09.block", site, k + ":block-shapes",
                   f"{len(shapes)} layers with the documented block shapes",
                   f"block shapes {[show(s, 40) for s in shapes]}, expected {[show(s, 40) for s in want_shapes]}")
+    # the remaining fields, for each depth of the grid (the layer list unrolls): declared shapes, the conditioning
+    # linear map (no bias, into the first layer's output), the default inverter
+    from .conform import conform_init
+    for depth in DEPTHS:
+        ref = BNAF_INIT_REF.replace("DEPTH_LITERAL", str(depth))
+        c0 = prog.cls(BN + "BlockAutoregressiveNetwork")
+        args = [("sym", "KEY")]
+        kw = {"dim": DIM, "cond_dim": ("sym", "COND_DIM"), "depth": C(depth), "block_dim": BD,
+              "activation": ("sym", "ACTIVATION"), "inverter": ("sym", "INVERTER")}
+        noin = {BN + "block_autoregressive_linear"}
+        gi, wi = Interp(prog, no_inline=noin), Interp(prog, no_inline=noin)
+        got = gi.eval_init(c0, args, kw)
+        wi.self_fields = {}
+        from ..refs import prelude
+        from ..terms import Env
+        wi.apply_def(ast.parse(ref).body[0], Env(prelude(prog)), (c0.module, c0, ("sym", "self")),
+                     [("sym", "self")] + args, kw)
+        for fld in ("shape", "cond_shape", "depth", "block_dim", "cond_linear", "inverter"):
+            compare(rep, "C09.block", site, f"BlockAutoregressiveNetwork[depth={depth}].__init__:{fld}",
+                    got.get(fld, ("unknown", "not assigned")), wi.self_fields.get(fld, ("unknown", "no ref")), f"field {fld}")
     from .c13 import guard_list
     it = Interp(prog)
     f = it.eval_init(c, [("sym", "KEY")], {"dim": DIM, "cond_dim": ("sym", "COND_DIM"), "depth": ("sym", "DEPTH"),
